@@ -37,11 +37,11 @@ theorem tryStop_ok (lib : Placed p B) (fok : FnsOK p ck B dA fa fns) (f : Nat) (
     (body handler k : S) (Γ : Gam) (env : Env) (pc o : Nat) (m : Mem) (env' : Env) (tr : List Ev) (res : Res)
     (hpl : PlacedAt p pc (cS (cxOf p ck B dA) fa lp Γ pc o (.tryStop body handler k)))
     (hB : pc + (cS (cxOf p ck B dA) fa lp Γ pc o (.tryStop body handler k)).length ≤ B)
-    (hinv : SInv p md Γ env m F D o ra) (hd : Disj p.w Γ) (hwf : wfS lp.vd (Γ.map Prod.fst) (.tryStop body handler k) = true)
+    (hinv : SInv p md Γ env m F D o ra) (hd : Disj p.w Γ) (hwf : wfS fns lp.vd (Γ.map Prod.fst) (.tryStop body handler k) = true)
     (hpk : pkS p.w o (.tryStop body handler k) ≤ D) (ho : p.w ≤ o)
     (hex : exec (256 ^ p.w) (8 * p.w) fns p.w (f + 1) D o env (.tryStop body handler k) = some (env', tr, res))
     (hck : FaultOK ck fns p.w res)
-    (hs : Safe p B dA ra lp md sb Γ env' F D o (pc + (cS (cxOf p ck B dA) fa lp Γ pc o (.tryStop body handler k)).length) m res
+    (hs : Safe p B dA ra lp md sb fns Γ env' F D o (pc + (cS (cxOf p ck B dA) fa lp Γ pc o (.tryStop body handler k)).length) m res
       (.tryStop body handler k)) :
     Concl p B ra lp md Γ env' F D o pc (pc + (cS (cxOf p ck B dA) fa lp Γ pc o (.tryStop body handler k)).length) m tr res := by
   have hw := lib.hw
@@ -135,7 +135,7 @@ theorem tryStop_ok (lib : Placed p B) (fok : FnsOK p ck B dA fa fns) (f : Nat) (
       · rw [← fr1.ap]; exact Mem.readLE_congr _ _ _ _ (fun x h1 h2 => hlo x (by omega))
       · intro a v' e
         cases e
-        exact ⟨rfl, by rw [hs, hsz1]; exact hsz, hFM2, hv, ht, hvM⟩
+        exact ⟨Nat.le_refl _, by rw [hs, hsz1]; omega, by omega, hv, hvM⟩
     have hlo3 : ∀ x, x < F → m3.rd x = m1.rd x := by
       intro x hx
       rw [← hm3, Mem.rd_writeLE_other _ _ _ _ _ (by omega), ← hm2, Mem.rd_writeLE_other _ _ _ _ _ (by omega)]
@@ -177,6 +177,9 @@ theorem tryStop_ok (lib : Placed p B) (fok : FnsOK p ck B dA fa fns) (f : Nat) (
     have back : ∀ (v : Nat) (env1 : Env) (mm : Mem),
         SInv p (.stop (F + p.w) v) (("%ap", o + p.w) :: Γ) env1 mm F D (o + p.w) ra → SInv p .you Γ env1 mm F D o ra :=
       fun v env1 mm h => decl_back hinv "%ap" (h.toMd (by intro a v h; cases h)) hapn
+    have backD : ∀ (v : Nat) (env1 : Env) (mm : Mem),
+        SInvD p (.stop (F + p.w) v) (("%ap", o + p.w) :: Γ) env1 mm F D (o + p.w) ra → SInvD p .you Γ env1 mm F D o ra :=
+      fun v env1 mm h => decl_backD hinv "%ap" ⟨h.ap, h.top, h.lt, h.room, h.vars, h.ra, fun a v e => by cases e⟩ hapn
     -- results of the body that leave the whole block
     have convS : ∀ (v : Nat) (env1 : Env) (res1 : Res), res1 ≠ .norm → res1 ≠ .defeat → ∀ (e1 e2 : Nat) (mm : Mem) st',
         Post p B ra { cont := lp.cont, brk := lp.brk, vd := true } (.stop (F + p.w) v) (("%ap", o + p.w) :: Γ) env1 F D (o + p.w) e1 mm res1 st' →
@@ -230,48 +233,58 @@ theorem tryStop_ok (lib : Placed p B) (fok : FnsOK p ck B dA fa fns) (f : Nat) (
         simp only [hap, ne_eq, not_true_eq_false, if_false] at hex
         -- the handler prologue, from any state in which the body can be defeated:
         -- `defeat := halt`, `fp := try_fp`, `ap :=` the saved value
-        have pro : ∀ m5, SInv p (.stop (F + p.w) (pc + 5 + nB + 2)) (("%ap", o + p.w) :: Γ) env1 m5 F D (o + p.w) ra → Keep p.w m3 m5 F →
+        have pro : ∀ m5, SInvD p (.stop (F + p.w) (pc + 5 + nB + 2)) (("%ap", o + p.w) :: Γ) env1 m5 F D (o + p.w) ra → KeepD p.w m3 m5 F →
             ∃ m8, Reach (sphinx p) ⟨pc + 5 + nB + 2, m5⟩ [] ⟨pc + 5 + nB + 2 + 3, m8⟩ ∧ SInv p .plain Γ env1 m8 F D o ra ∧
               Keep p.w m m8 (Md.you.kb F p.w) := by
           intro m5 hi5 k35
-          obtain ⟨_, hsz5, _, _, ht5, _⟩ := hi5.dreg _ _ rfl
-          have fr5 := hi5.fr
+          have hsz5 : m5.size = m.size := by rw [k35.size, hsz3]
+          -- `try_fp` still holds the frame pointer of the `try`: nothing above the frame was touched
+          have ht5 : m5.readLE F p.w = F := by rw [k35.read _ _ (Nat.le_refl _)]; exact ht3
           have t0 := step_mov (m := m5) d0 (ev_imm (B + off_halt)) (by unfold Prog.M; omega) (by omega)
           rw [show (B + off_halt) % p.M = B + off_halt from Nat.mod_eq_of_lt (by unfold Prog.M; omega)] at t0
           generalize hm6 : m5.writeLE (F + p.w) p.w (B + off_halt) = m6 at t0
-          have k56 : Keep p.w m5 m6 (F + 2 * p.w) := by rw [← hm6]; exact Keep.write _ _ _ _ _ _ (by omega) (by omega)
-          have fr6 := fr5.keep k56
+          have hsz6 : m6.size = m.size := by rw [← hm6]; simp [hsz5]
           have e1' : evalArg p ⟨pc + 5 + nB + 2 + 1, m6⟩ (.st F) = some F := by
-            rw [ev_st (by unfold Prog.M; omega) (by rw [k56.size]; omega), ← hm6, Mem.readLE_writeLE_disj _ _ _ _ _ _ (by omega), ht5]
-          have t1 := step_mov (m := m6) d1 e1' (by unfold Prog.M; omega) (by rw [k56.size]; omega)
+            rw [ev_st (by unfold Prog.M; omega) (by omega), ← hm6, Mem.readLE_writeLE_disj _ _ _ _ _ _ (by omega), ht5]
+          -- `fp` comes back from `try_fp` (the defeat may have happened in a callee), then `ap` from the frame slot
+          have t1 := step_mov (m := m6) d1 e1' (by unfold Prog.M; omega) (by omega)
           generalize hm7 : m6.writeLE p.w p.w F = m7 at t1
-          have k67 : Keep p.w m6 m7 (2 * p.w) := by
-            rw [← hm7]; exact keep_reg m6 p.w F _ (by omega) (Or.inr rfl) fr6.fp hFM (by rw [k56.size]; omega) (Nat.le_refl _)
-          have fr7 := fr6.keep k67
+          have hsz7 : m7.size = m.size := by rw [← hm7]; simp [hsz6]
+          have fr7 : Fr p m7 F D := by
+            refine ⟨?_, ?_, by omega, hFM, hroom⟩
+            · rw [← hm7, Mem.readLE_writeLE_same _ _ _ _ (by omega)]; exact Nat.mod_eq_of_lt hFM
+            · rw [← hm7, Mem.readLE_writeLE_disj _ _ _ _ _ _ (by omega), ← hm6, Mem.readLE_writeLE_disj _ _ _ _ _ _ (by omega)]; exact hi5.ap
           have d2' : p.code[pc + 5 + nB + 2 + 1 + 1]? = some (ldSlot (cxOf p ck B (F + p.w)) 0 (o + p.w)) := by
             rw [show pc + 5 + nB + 2 + 1 + 1 = pc + 5 + nB + 2 + 2 by omega]; exact d2
           have t2 := step_ldSlot ck B 0 (o + p.w) hw fr7 d2' (by omega) hoW (by omega)
+          have hlo7 : ∀ x, 2 * p.w ≤ x → x < F + p.w → m7.rd x = m5.rd x := by
+            intro x h1 h2
+            rw [← hm7, Mem.rd_writeLE_other _ _ _ _ _ (by omega), ← hm6, Mem.rd_writeLE_other _ _ _ _ _ (by omega)]
           have hslot : m7.readLE (F - (o + p.w)) p.w = 5 * p.w := by
-            rw [k67.read _ _ (by omega), ← hm6, Mem.readLE_writeLE_disj _ _ _ _ _ _ (by omega)]
+            have e7 : m7.readLE (F - (o + p.w)) p.w = m5.readLE (F - (o + p.w)) p.w :=
+              Mem.readLE_congr _ _ _ _ (fun y h1 h2 => hlo7 y (by omega) (by omega))
             have := (hi5.vars "%ap" (by simp)).2.2
-            rw [look_cons_same] at this; rw [this, hap]
+            rw [look_cons_same] at this; rw [e7, this, hap]
           rw [hslot] at t2
           generalize hm8 : m7.writeLE 0 p.w (5 * p.w) = m8 at t2
           have k78 : Keep p.w m7 m8 (2 * p.w) := by
-            rw [← hm8]; exact keep_reg m7 0 (5 * p.w) _ (by omega) (Or.inl rfl) fr7.ap (by omega) (by rw [k67.size, k56.size]; omega) (Nat.le_refl _)
+            rw [← hm8]; exact keep_reg m7 0 (5 * p.w) _ (by omega) (Or.inl rfl) fr7.ap (by omega) (by omega) (Nat.le_refl _)
           have fr8 := fr7.keep k78
           have hi8 : SInv p .plain Γ env1 m8 F D o ra := by
-            refine (back _ _ _ hi5).same ho hoD (by rw [k78.size, k67.size, k56.size]) fr8.fp fr8.ap (fun x h5 hx => ?_) (fun a v e => by cases e)
-            rw [k78.hi x (by omega), k67.hi x (by omega), ← hm6, Mem.rd_writeLE_other _ _ _ _ _ (by omega)]
-          have km8 : Keep p.w m m8 (Md.you.kb F p.w) :=
-            ((km3.trans' (k35.mono (by omega))).trans' k56).trans' ((k67.mono (by omega)).trans' (k78.mono (by omega)))
+            refine (backD _ _ _ hi5).same ho hoD (by rw [k78.size, hsz7, hsz5]) fr8.fp fr8.ap (fun x h5 hx => ?_) (fun a v e => by cases e)
+            rw [k78.hi x (by omega), hlo7 x (by omega) (by omega)]
+          have km8 : Keep p.w m m8 (Md.you.kb F p.w) := by
+            refine ⟨by rw [k78.size, hsz7], by rw [fr8.fp, fr.fp], by rw [fr8.ap, fr.ap], fun x hx => ?_⟩
+            have hx' : F + 2 * p.w ≤ x := hx
+            rw [k78.hi x (by omega), ← hm7, Mem.rd_writeLE_other _ _ _ _ _ (by omega), ← hm6, Mem.rd_writeLE_other _ _ _ _ _ (by omega),
+              k35.hi x (by omega), km3.hi x hx']
           have rp := (Reach.of_next (sys := sphinx p) t0).trans ((Reach.of_next (sys := sphinx p) t1).trans (Reach.of_next (sys := sphinx p) t2))
           exact ⟨m8, by simpa [evl, Nat.add_assoc] using rp, hi8, km8⟩
         -- given what happens from the handler on, in any such state: the two runs of the body
         have close : ∀ (trA : List Ev) (envF : Env) (resF : Res), resF ≠ .defeat →
             (∀ st', Post p B ra lp .you Γ envF F D o (pc + 5 + nB + 2 + 3 + nH + (cS (cxOf p ck B (F + p.w)) fa lp Γ (pc + 5 + nB + 2 + 3 + nH) o k).length) m resF st' →
               ¬ Halts (sphinx p) st') →
-            (∀ m5, SInv p (.stop (F + p.w) (pc + 5 + nB + 2)) (("%ap", o + p.w) :: Γ) env1 m5 F D (o + p.w) ra → Keep p.w m3 m5 F →
+            (∀ m5, SInvD p (.stop (F + p.w) (pc + 5 + nB + 2)) (("%ap", o + p.w) :: Γ) env1 m5 F D (o + p.w) ra → KeepD p.w m3 m5 F →
               ∃ stE, Reach (sphinx p) ⟨pc + 5 + nB + 2, m5⟩ trA stE ∧
                 Post p B ra lp .you Γ envF F D o (pc + 5 + nB + 2 + 3 + nH + (cS (cxOf p ck B (F + p.w)) fa lp Γ (pc + 5 + nB + 2 + 3 + nH) o k).length) m resF stE) →
             Concl p B ra lp .you Γ envF F D o pc
@@ -308,7 +321,7 @@ theorem tryStop_ok (lib : Placed p B) (fok : FnsOK p ck B dA fa fns) (f : Nat) (
         | some rh =>
           obtain ⟨env2, tr2, res2⟩ := rh
           simp only [hh2, Option.bind_some] at hex
-          have hnd2 : res2 ≠ .defeat := exec_no_defeat _ _ _ _ false _ _ _ _ _ _ _ _ (plain_youLevel _ _ hplh) hh2
+          have hnd2 : res2 ≠ .defeat := exec_no_defeat _ _ _ _ false _ _ _ _ _ _ _ _ (plain_youLevel _ _ _ hplh) hh2
           by_cases hn2 : res2 = .norm
           · subst hn2
             simp only [if_true] at hex
@@ -324,7 +337,7 @@ theorem tryStop_ok (lib : Placed p B) (fok : FnsOK p ck B dA fa fns) (f : Nat) (
               obtain ⟨m8, rp, hi8, km8⟩ := pro m5 hi5 k35
               have hhh := ih F D ra hra lp hlp .plain sb handler Γ env1 (pc + 5 + nB + 2 + 3) o m8 env2 tr2 .norm hplH (by rw [hlenH]; omega)
                 hi8 hd hwh hpkH ho hh2 trivial
-                (Or.inl ⟨(by intro h; cases h), (by intro h; rw [hvd] at h; cases h), plain_noTry _ hplh, Or.inl HaltW.plain⟩)
+                (Or.inl ⟨(by intro h; cases h), (by intro h; rw [hvd] at h; cases h), plain_noTry _ _ hplh, Or.inl HaltW.plain⟩)
               rw [hlenH] at hhh
               obtain ⟨st9, r9, hp9⟩ := hhh.2 (nd (by decide))
               have hp9 := hp9.toYou
@@ -341,7 +354,7 @@ theorem tryStop_ok (lib : Placed p B) (fok : FnsOK p ck B dA fa fns) (f : Nat) (
             obtain ⟨m8, rp, hi8, km8⟩ := pro m5 hi5 k35
             have hhh := ih F D ra hra lp hlp .plain sb handler Γ env1 (pc + 5 + nB + 2 + 3) o m8 env2 tr2 res2 hplH (by rw [hlenH]; omega)
               hi8 hd hwh hpkH ho hh2 hck
-              (Or.inl ⟨(by intro h; cases h), (by intro h; rw [hvd] at h; cases h), plain_noTry _ hplh, Or.inl HaltW.plain⟩)
+              (Or.inl ⟨(by intro h; cases h), (by intro h; rw [hvd] at h; cases h), plain_noTry _ _ hplh, Or.inl HaltW.plain⟩)
             rw [hlenH] at hhh
             obtain ⟨stE, rE, hpE⟩ := hhh.toYou.2 (nd hnd2)
             exact ⟨stE, by simpa using rp.trans rE, convN env2 res2 hn2 _ _ stE (hpE.rebase km8)⟩
